@@ -69,6 +69,9 @@ def configs(tier, seed):
              (1, [2, 2], 2, [3, 3]), (2, [3, 2, 3], 1, [2, 2]), (3, [4, 4], 3, [4, 4]), (0, [1, 1], 1, [2, 2])]
     for i, (p, ma, q, mb) in enumerate(pairs):
         cfgs.append(dict(name=f"join p={p} {ma} | q={q} {mb}", kind="join", p=p, ma=ma, q=q, mb=mb, k=i))
+    # vector-valued operands whose end points agree in one coordinate only (x continuous, y free)
+    for i, (p, ma, q, mb) in enumerate(pairs[1:4] if tier == "quick" else pairs[:7]):
+        cfgs.append(dict(name=f"join 2-D, x continuous: p={p} {ma} | q={q} {mb}", kind="join", p=p, ma=ma, q=q, mb=mb, k=i + 3, dim2=True))
     cfgs.append(dict(name="join gap", kind="joingap"))
     cfgs.append(dict(name="rational rejoin", kind="ratjoin"))
     return cfgs
@@ -213,6 +216,15 @@ def _join(env, cfg):
     else:
         P = _mixed_points(env, "P", kva.n, {kva.n - 1}, k)
         Q = _mixed_points(env, "Q", kvb.n, {0, 1} if kvb.n > 1 else {0}, k + 1)
+    if cfg.get("dim2"):
+        # y: the two end values at the junction are symbolic; x: fixed, and equal at the junction
+        P = _mixed_points(env, "P", kva.n, {kva.n - 1}, k)
+        Q = _mixed_points(env, "Q", kvb.n, {0}, k + 1)
+        xa = [Fraction(3 * i - 2, 2) for i in range(kva.n)]
+        xb = [env.const(xa[-1] + Fraction(5 * i, 3)) for i in range(kvb.n)]
+        xa = [env.const(x) for x in xa]
+        P = [np.array([x, y], dtype=object) for x, y in zip(xa, P)]
+        Q = [np.array([x, y], dtype=object) for x, y in zip(xb, Q)]
     A, B = Curve(list(kva.U), P), Curve(list(kvb.U), Q)
     sa, sb = kmode.snapshot(A), kmode.snapshot(B)
     J = A | B
@@ -232,9 +244,10 @@ def _join(env, cfg):
         kmode.same_function(env, "A|B on B's interval", kvb, Q, None, kvJ, QJ, None, lo=vb[0], hi=vb[-1])
     else:
         env.assume(removed <= 1)  # deeper tolerance-level removals: outside the claim (see META)
-        ea = kmode.l2_sq(kva, P, kvJ, QJ, lo=va[0], hi=va[-1])[0]
-        eb = kmode.l2_sq(kvb, Q, kvJ, QJ, lo=vb[0], hi=vb[-1])[0]
-        env.holds(f"junction knot removed {removed}x: deviation within the tolerance", ea + eb <= bound * removed * removed)
+        eas = kmode.l2_sq(kva, P, kvJ, QJ, lo=va[0], hi=va[-1])
+        ebs = kmode.l2_sq(kvb, Q, kvJ, QJ, lo=vb[0], hi=vb[-1])
+        for c, (ea, eb) in enumerate(zip(eas, ebs)):
+            env.holds(f"junction knot removed {removed}x: deviation within the tolerance (coord {c})", ea + eb <= bound * removed * removed)
     env.note(f"junction multiplicity {mj}")
 
 
